@@ -273,6 +273,40 @@ def three_roll_cases(chk, rng):
                 return chk.fail('three-usable-symmetry', f"{name}: usable cross-section is not invariant under a 120 degree turn", data)
 
 
+def solved_then_edited(chk):
+    """histories through the solver: a pass defined by one member of the opening is solved, the member is changed, the pass is solved again - gap, height,
+    inscribed circle diameter and contours are those of a fresh pass given the new value (a solve must not turn a derived member into a given one)"""
+    from pyroll.core import ThreeRollPass, RollPass, Roll, Profile, CircularOvalGroove
+    for cls, members, pad, d in ((ThreeRollPass, ('inscribed_circle_diameter', 'height', 'gap'), {'pad_angle': 30}, 55e-3), (RollPass, ('height', 'gap'), {}, 30e-3)):
+        mk = lambda **kw: cls(label="p", roll=Roll(groove=CircularOvalGroove(depth=8e-3, r1=6e-3, r2=40e-3, **pad), nominal_radius=160e-3, rotational_frequency=1), **kw)   # noqa
+        ip = Profile.round(diameter=d, temperature=1473.15, strain=0, material=["C45", "steel"], flow_stress=100e6, length=1)
+        proto = mk(gap=3e-3)
+        for given in members:
+            v1 = float(getattr(proto, given))
+            v2 = v1 - 1e-3
+            rp = mk(**{given: v1})
+            data = {'rolls': 3 if cls is ThreeRollPass else 2, 'given': given, 'history': 'solve, edit, solve'}
+            chk.cov['evaluations'] += 1
+            try:
+                rp.solve(ip)
+                setattr(rp, given, v2)
+                rp.solve(ip)
+            except Exception as e:      # noqa
+                chk.notes.append(f"solved_then_edited {cls.__name__} {given}: {type(e).__name__}")
+                continue
+            fresh = mk(**{given: v2})
+            for k in members:
+                a, b = float(getattr(rp, k)), float(getattr(fresh, k))
+                if abs(a - b) > 1e-9 * max(abs(b), 1e-3):
+                    return chk.fail('solve-edit', f"{cls.__name__} defined by {given} = {v1}, solved, {given} changed to {v2}, solved again: {k} = {a}, a fresh pass given "
+                                    f"the new {given} has {b}", data)
+            ca = [np.array(c.coords) for c in rp.contour_lines.geoms]
+            cb = [np.array(c.coords) for c in fresh.contour_lines.geoms]
+            if len(ca) != len(cb) or any(x.shape != y.shape or np.max(np.abs(x - y)) > 1e-12 for x, y in zip(ca, cb)):
+                return chk.fail('solve-edit', f"{cls.__name__} defined by {given}, solved, {given} changed, solved again: the contour lines are not those of a fresh pass "
+                                f"given the new {given}", data)
+
+
 def rot_area(A, deg):
     from shapely.geometry import Polygon
     return Polygon(rot(A, deg)).area
@@ -300,6 +334,8 @@ def run(chk):
     if not [f for f in chk.failures if not f.key.startswith('three-')]:
         spline_array_case(chk)
         three_roll_cases(chk, rng)
+    if not [f for f in chk.failures if f.key not in ('three-roll-gap-zero', 'three-height-flat-groove')]:
+        solved_then_edited(chk)
     chk.cov['distinct_nontrivial'] += chk.cov['evaluations']
     chk.sample({'groove': GC.CATALOGUE[0][0], 'kwargs': GC.CATALOGUE[0][1], 'gap': 0.001, 'rolls': 2})
     chk.cov['rule'] = ("every catalogue groove with pad angle 0 in a two-roll pass and with pad angle 30 in a three-roll pass, gaps 0, 1 mm and a "
